@@ -565,6 +565,13 @@ class PathExec:
         lab = s.choose([(xv.as_long(), v.bv == xv) for xv in vals])
         return lab if not v.signed else z3.BitVecVal(lab, v.bv.size()).as_signed_long()
 
+    def index_or_oob(s, iv, n):
+        """fork over the in-range values 0..n-1 of an (unsigned) index and one out-of-bounds branch; returns int or None"""
+        c = iv.concrete()
+        if c is not None: return c if 0 <= c < n else None
+        nb = iv.bv.size()
+        conds = [(k, iv.bv == z3.BitVecVal(k, nb)) for k in range(n)] + [(None, z3.UGE(iv.bv, z3.BitVecVal(n, nb)))]
+        return s.choose(conds)
     # ---- places -> Cell
     def place(s, fr, p):
         p = p.strip()
@@ -627,8 +634,8 @@ class PathExec:
         v = cell.v
         items = v.items if isinstance(v, (VecV, SliceRef)) else (v.fields if isinstance(v, Agg) and v.kind == 'array' else None)
         if items is None: raise Unsupported(f'index into {v!r}')
-        i = s.concretize_int(iv, 'index')
-        if not (0 <= i < len(items)): raise Panic('index out of bounds (model)')
+        i = s.index_or_oob(iv, len(items))
+        if i is None: raise Panic('index out of bounds')
         return items[i]
     def materialize(s, agg):
         """lazy enum: fork over variants"""
